@@ -23,7 +23,8 @@ def check_import_location():
 def clear_caches():
     from dliswriter.utils.internal import struct_writer
     from dliswriter.logical_record.core.logical_record import segment_attributes
-    for fn in (getattr(struct_writer, 'write_struct', None), getattr(segment_attributes, 'ushort', None)):
+    for fn in (getattr(struct_writer, 'write_struct', None), getattr(struct_writer, '_write_struct_cached', None),
+               getattr(segment_attributes, 'ushort', None)):
         cc = getattr(fn, 'cache_clear', None)
         if cc:
             cc()
